@@ -38,7 +38,8 @@ Inductive reply := Ack | Err (k : errk).
 Inductive item :=
 | Touch (o : op) (p : path) (ok : bool)     (* a call that resolved to canonical path p; ok = it succeeded *)
 | Reply (r : reply)
-| Line (l : bytes).                         (* a control line as the parser sees it (C string) *)
+| Line (l : bytes)                          (* a control line as the parser sees it (C string) *)
+| Starved.                                  (* a read() found the input exhausted *)
 
 Record world := mkw { w_fs : node; w_in : bytes; w_log : list item }.
 
@@ -49,7 +50,8 @@ Record config := mkcfg {
   c_preserve : bool;     (* -p *)
   c_umask : N;           (* process umask *)
   c_blksize : N;         (* st_blksize reported for files of the destination *)
-  c_check : bool }.      (* the received name is checked (the fix) *)
+  c_check : bool;        (* the received name is checked (fixes/C12-name-escape.diff) *)
+  c_dirmode : bool }.    (* under -p a directory just created is chmod'ed (fixes/C11-preserve-dir-mode.diff) *)
 
 Inductive ret := RetEnd | RetFault | RetFuel.
 
@@ -300,7 +302,8 @@ Definition handle_dir (cfg : config) (np : bytes) (mode : N) (ex : option kind) 
     match ex with
     | Some KFile => (false, w)                                                    (* errno = ENOTDIR; goto bad *)
     | Some KDir => (true, if c_preserve cfg then snd (do_chmod cfg np mode w) else w)
-    | None => do_mkdir cfg np mode w
+    | None => let '(ok, w) := do_mkdir cfg np mode w in
+              (ok, if ok && c_preserve cfg && c_dirmode cfg then snd (do_chmod cfg np mode w) else w)
     end in
   if negb go then cont setimes (say (Err EBad) w)
   else
@@ -324,12 +327,12 @@ Definition handle_file (cfg : config) (np : bytes) (mode : N) (size : Z) (setime
     match data_loop (S (length (w_in w))) (blk_cnt cfg) p size 0%Z [] 0 0 w with
     | DFault => (w, RetFault)
     | DFuel => (w, RetFuel)
-    | DEof w => (say (Err EData) w, RetEnd)
+    | DEof w => (say (Err EData) (logi Starved w), RetEnd)
     | DDone w =>
       let '(tok, w) := on_fd OTrunc p (fs_truncate (w_fs w) p size) w in
       let w := if tok then w else say (Err ETrunc) w in
       match w_in w with                                                           (* _response *)
-      | [] => (say (Err EResp) w, RetEnd)
+      | [] => (say (Err EResp) (logi Starved w), RetEnd)
       | r :: inp =>
         let w := set_in w inp in
         if negb (r =? 0) then (say (Err EResp) w, RetEnd)
@@ -348,9 +351,9 @@ Fixpoint loop (fuel : nat) (cfg : config) (targ : bytes) (targisdir : bool) (st 
   | S f =>
     match read_line (l_buf st) (w_in w) with
     | RL_Fault => (w, RetFault)
-    | RL_Eof => (w, RetEnd)
+    | RL_Eof => (logi Starved w, RetEnd)
     | RL_Newline inp => (say (Err (EScrewup 1)) (set_in w inp), RetEnd)
-    | RL_Lost => (say (Err (EScrewup 2)) (set_in w []), RetEnd)
+    | RL_Lost => (say (Err (EScrewup 2)) (logi Starved (set_in w [])), RetEnd)
     | RL_Line buf cp ch inp =>
       match buf_set buf cp 0 with                                     (* *cp = 0 *)
       | None => (w, RetFault)
@@ -401,3 +404,14 @@ Definition touched (w : world) : list path :=
   fold_right (fun it acc => match it with Touch _ p _ => p :: acc | _ => acc end) [] (w_log w).
 Definition replies (w : world) : list reply :=
   fold_right (fun it acc => match it with Reply r => r :: acc | _ => acc end) [] (rev (w_log w)).
+
+(* the replies written before the receiver first found its input exhausted: what a peer that has sent
+   exactly this much can have seen *)
+Fixpoint replies_until_starved (chron : list item) : list reply :=
+  match chron with
+  | [] => []
+  | Starved :: _ => []
+  | Reply r :: rest => r :: replies_until_starved rest
+  | _ :: rest => replies_until_starved rest
+  end.
+Definition seen_replies (w : world) : list reply := replies_until_starved (rev (w_log w)).
